@@ -23,6 +23,7 @@ from .encode import cps, decode_schema, decode_value, encode_value, uncps
 _st: dict = {}
 CONTAINERS = (("path", "path_parameters"), ("query", "query"), ("header", "headers"), ("cookie", "cookies"))
 BATCH = 24  # operations per engine run on the wire path
+CONFIGURED_HEADERS = {"X-Cfg": "1"}  # cfg = "header": an unrelated header the run is configured with (-H / network.headers)
 
 
 # ------------------------------------------------------------------------------------------ spec -> code
@@ -157,7 +158,8 @@ def observe_fast(op: dict) -> dict:
             pass
 
         b = st["builder"]
-        wrapped = b.add_examples(test, operation, hooks=None, auth_storage=None, generation_config=st["GenerationConfig"]())
+        extra = {"headers": dict(CONFIGURED_HEADERS)} if op.get("cfg") == "header" else {}  # = engine's get_strategy_kwargs
+        wrapped = b.add_examples(test, operation, hooks=None, auth_storage=None, generation_config=st["GenerationConfig"](), **extra)
         examples = getattr(wrapped, "hypothesis_explicit_examples", [])
         cases = [e.kwargs["case"] for e in examples]
         error = (b.UnsatisfiableExampleMark.is_set(test) or b.NonSerializableMark.get(test) is not None
@@ -203,10 +205,12 @@ def observe_wire(ops: list[dict]) -> list[dict]:
     import hypothesis
     import schemathesis
     from schemathesis.engine import from_schema
-    from schemathesis.engine.config import EngineConfig, ExecutionConfig
+    from schemathesis.engine.config import EngineConfig, ExecutionConfig, NetworkConfig
     from schemathesis.engine.phases import PhaseName
 
     from .server import LoopbackServer
+
+    network = NetworkConfig(headers=dict(CONFIGURED_HEADERS)) if ops[0].get("cfg") == "header" else NetworkConfig()
 
     doc, where = build_document(ops)
     status = {("%s %s" % (m, p)): "none" for p, m in where}
@@ -216,7 +220,7 @@ def observe_wire(ops: list[dict]) -> list[dict]:
             settings = hypothesis.settings(max_examples=1, deadline=None, database=None, derandomize=True,
                                            suppress_health_check=list(hypothesis.HealthCheck))
             config = EngineConfig(execution=ExecutionConfig(phases=[PhaseName.EXAMPLES], hypothesis_settings=settings,
-                                                            workers_num=1, seed=1))
+                                                            workers_num=1, seed=1), network=network)
             for ev in from_schema(schema, config=config).execute():
                 name = type(ev).__name__
                 if name == "NonFatalError" and ev.label in status:
@@ -289,6 +293,10 @@ def _bad(e: dict) -> bool:
     return e["kind"] in ("header", "cookie") and e["v"]["t"] == "str" and any(c < 32 or c == 127 or c > 255 for c in e["v"]["v"])
 
 
+def _falsy(v: dict) -> bool:
+    return v["t"] in ("int", "bool", "str", "arr", "obj") and not v.get("v")
+
+
 def demanded(op: dict) -> list[dict]:
     """Mirror of Examples!Demanded: beside an unsendable example only the sendable examples of the same parameter."""
     every = all_examples(op)
@@ -347,6 +355,12 @@ def signature(op: dict, obs: dict, complaint: str, any_arith: set | None = None)
             arith = "alone" if others == 0 else ("smaller-pool" if e["pool"] < max(pools) else "largest-pool")
             if any(_bad(x) for x in all_examples(op)):
                 arith = "beside-unsendable"
+            elif op.get("cfg", "none") != "none":
+                arith = "configured-" + op["cfg"]
+            elif obs["mode"] == "wire" and all(x["v"]["t"] == "bool" for x in d):
+                arith = "boolean-on-the-wire"
+            elif all(_falsy(x["v"]) for x in d):
+                arith = "falsy-value"
             key = "%s/%s:%s" % (e["place"], e["form"], "body" if e["kind"] == "body" else "parameter")
             dia = "swagger2" if op["dialect"] == "2.0" else "openapi3"
             if any_arith is not None and (key, dia) in any_arith:
@@ -354,7 +368,8 @@ def signature(op: dict, obs: dict, complaint: str, any_arith: set | None = None)
             elif any_arith is None and arith == "alone":
                 arith = "any"
             return "C17:dropped:%s:%s:%s" % (key, arith, dia)
-    return "C17:%s:%s:%s" % (complaint, op["slice"], "swagger2" if op["dialect"] == "2.0" else "openapi3")
+    places = "+".join(sorted({b["place"] for b in op["bodies"]} if op["bodies"] else {p["place"] for p in op["params"]}))
+    return "C17:%s:%s:%s" % (complaint, places or op["slice"], "swagger2" if op["dialect"] == "2.0" else "openapi3")
 
 
 def _short(op: dict) -> str:
@@ -362,7 +377,7 @@ def _short(op: dict) -> str:
                                           sum(len(x["vals"]) for x in p["ex"])) for p in op["params"])
     bs = ", ".join("%s%s [%s x%d]" % (uncps(b["mt"]), "*" if b["required"] else "", b["place"], sum(len(x["vals"]) for x in b["ex"]))
                    for b in op["bodies"])
-    return "OpenAPI %s params{%s} bodies{%s}" % (op["dialect"], ps, bs)
+    return "OpenAPI %s params{%s} bodies{%s}%s" % (op["dialect"], ps, bs, " configured-header" if op.get("cfg") == "header" else "")
 
 
 def _readable(obs: dict) -> list:
@@ -411,8 +426,8 @@ def run(ctx: Ctx) -> Outcome:
     quota = 24 if ctx.quick else 240
     picked = sorted(i for idxs in per_slice.values() for i in common.sample(rng, idxs, quota))
     batches: list[list[int]] = []
-    for dialect in ("3.0", "2.0"):
-        idxs = [i for i in picked if ops[i]["dialect"] == dialect]
+    for key in sorted({(ops[i]["dialect"], ops[i].get("cfg", "none")) for i in picked}):  # one document / one configuration per run
+        idxs = [i for i in picked if (ops[i]["dialect"], ops[i].get("cfg", "none")) == key]
         batches.extend(idxs[k:k + BATCH] for k in range(0, len(idxs), BATCH))
     t1 = time.time()
     wire_results = _parallel_small(batches, ops)
